@@ -39,7 +39,7 @@ VERSIONS = (4, 5, 7, 8, 9, 12, 13, 14)
 FAIL_KINDS = ("none", "none", "error", "rstack", "lost", "eof", "silent")
 PROBES = ["soak.epochs", "soak.reconnect_other_version", "soak.fail.error", "soak.fail.rstack", "soak.fail.lost", "soak.fail.eof", "soak.fail.silent", "soak.fail.none",
           "soak.send.success", "soak.send.failure", "soak.send.never", "soak.send.cut_by_failure", "soak.incoming", "soak.join", "soak.leave", "soak.mc_subscribe",
-          "soak.mc_unsubscribe", "soak.keepalives", "soak.faulty_line", "soak.reported", "soak.sends_in_progress_at_failure"]
+          "soak.mc_unsubscribe", "soak.keepalives", "soak.faulty_line", "soak.reported", "soak.sends_in_progress_at_failure", "soak.exception_escaped_after_failure"]
 
 
 def run(params, tape, detail=False):
@@ -437,6 +437,16 @@ def run(params, tape, detail=False):
                 viol.append(("C12.ok", "returned-without-confirmation", f"{tag}: returned normally although no confirmation of its own was ever emitted"))
             elif not isinstance(e, asyncio.TimeoutError) and kind != "cancelled":
                 viol.append(("C12.err", "wrong-exception", f"{tag}: expected TimeoutError (no own confirmation), got {e!r}"))
+    # nothing may escape a protocol callback: AshProtocol.data_received (C02), EZSP.frame_received (C08) - observed at the transport (which
+    # catches what data_received lets out) and at the loop's exception handler ("Exception in callback ..."; "Task exception was never
+    # retrieved" entries come from abandoned tasks after an injected failure and are not callbacks)
+    esc = [repr(e)[:120] for e in (rig.transport.raised if rig.transport is not None else [])]
+    esc += [f"{m}: {n} {r}"[:160] for (m, n, r) in rig.loop.exceptions if str(m).startswith("Exception in callback")]
+    if esc and not ses_fail_times:
+        for cl in ("C02.noraise", "C08.noraise"):
+            viol.append((cl, "soak-escaped", f"soak (v{V0}, {nepochs} epochs, no failure injected): an exception escaped a protocol callback: {esc[:2]}"))
+    elif esc:
+        probe("exception_escaped_after_failure", len(esc))
     # request sequence numbers during traffic (fault-free line only: a request lost with a failing link consumes a number unseen)
     if not faults:
         prev = None
